@@ -680,8 +680,8 @@ def s_box_as_mut(vm, st, callee, args, dest, ret_bb, m):
 
 def s_map_get(vm, st, callee, args, dest, ret_bb, m):
     mp = vm.load(st, args[0])
-    key = as_str(vm, st, args[1])
-    conds = [(str_eq(k, key), some(Ptr(c, ()))) for k, c in mp.data]
+    key = deref(vm, st, args[1])
+    conds = [(values_eq(vm, st, k, key), some(Ptr(c, ()))) for k, c in mp.data]
     misses = [z3.Not(c) for c, _ in conds]
     conds.append((simp(z3.And(*misses)) if misses else mk_bool(True), none()))
     feas = [(c, v) for c, v in conds if vm.feasible(st, c)]
@@ -698,6 +698,26 @@ def s_map_get(vm, st, callee, args, dest, ret_bb, m):
         return r
     outs.append(st if r is None else _Finished(r))
     return outs
+
+
+def s_map_insert(vm, st, callee, args, dest, ret_bb, m):
+    """BTreeMap::insert with a key that is concretely new or concretely present (keys here are ids)"""
+    mp = vm.load(st, args[0])
+    key = args[1]
+    for k, c in mp.data:
+        eq = values_eq(vm, st, k, key)
+        if z3.is_true(eq):
+            old = st.mem[c]
+            st.mem[c] = args[2]
+            return done(vm, st, dest, ret_bb, some(old))
+        if not z3.is_false(eq):
+            raise Unsupported('BTreeMap::insert with a symbolic key')
+    vm.store(st, args[0], Opaque('map', mp.data + ((key, st.alloc(args[2])),)))
+    return done(vm, st, dest, ret_bb, none())
+
+
+def s_map_new(vm, st, callee, args, dest, ret_bb, m):
+    return done(vm, st, dest, ret_bb, Opaque('map', ()))
 
 
 def s_opt_as_mut(vm, st, callee, args, dest, ret_bb, m):
@@ -1078,6 +1098,19 @@ def s_to_token_stream(vm, st, callee, args, dest, ret_bb, m):
     return done(vm, st, dest, ret_bb, Tokens(tokens_of(vm, st, args[0])))
 
 
+_fmt_counter = [0]
+
+
+def s_fmt_opaque(vm, st, callee, args, dest, ret_bb, m):
+    return done(vm, st, dest, ret_bb, Opaque('fmt', None))
+
+
+def s_format(vm, st, callee, args, dest, ret_bb, m):
+    """format!(..): some string; its content is irrelevant to every property (messages are not compared)"""
+    _fmt_counter[0] += 1
+    return done(vm, st, dest, ret_bb, StrV(z3.String(f'formatted#{_fmt_counter[0]}')))
+
+
 def s_span(vm, st, callee, args, dest, ret_bb, m):
     return done(vm, st, dest, ret_bb, Opaque('span'))
 
@@ -1137,10 +1170,13 @@ TABLE = [
     (r'^std::boxed::box_assume_init_into_vec_unsafe::<', s_box_into_vec),
     (r'^<std::boxed::Box<.*> as AsMut<.*>>::as_mut$', s_box_as_mut),
     (r'^<std::boxed::Box<.*> as AsRef<.*>>::as_ref$', s_box_as_mut),
-    (r'^BTreeMap::<std::string::String, .*>::get::<', s_map_get),
+    (r'^BTreeMap::<.*>::get::<', s_map_get),
+    (r'^BTreeMap::<.*>::insert$', s_map_insert),
+    (r'^BTreeMap::<.*>::new$', s_map_new),
     (r'^Option::<.*>::as_mut$', s_opt_as_mut),
     (r'^<<T as Text<\'_>>::Value as AsRef<str>>::as_ref$', s_deref_id),
-    (r'^<(Vec<.*>|std::string::String|Cow<.*>|&.*|std::boxed::Box<.*>) as (__)?Deref>::deref$', s_deref_id),
+    (r'^<(Vec<.*>|std::string::String|Cow<.*>|&.*|std::boxed::Box<.*>) as (__)?Deref(Mut)?>::deref(_mut)?$', s_deref_id),
+    (r'^core::slice::<impl \[.*\]>::get_mut::<usize>$', s_slice_get),
     (r'^<(Vec<.*>|std::string::String|Cow<.*>|str|&str) as AsRef<(str|\[.*\])>>::as_ref$', s_deref_id),
     (r'^std::string::String::as_str$', s_deref_id),
     (r'^<.* as Borrow<.*>>::borrow$', s_deref_id),
@@ -1180,6 +1216,9 @@ TABLE = [
     (r'^quote::__private::parse$', s_quote_parse),
     (r'^(proc_macro2::)?Ident::new$', s_ident_new),
     (r'^Span::call_site$', s_span),
+    (r'^core::fmt::rt::Argument::<.*>::new_(display|debug)::<', s_fmt_opaque),
+    (r'^(core::fmt::|std::fmt::)?Arguments::<.*>::(new|new_v1|new_const|from_str)(::<.*>)?$', s_fmt_opaque),
+    (r'^(alloc::fmt::|std::fmt::)?format$', s_format),
     (r' as quote::ToTokens>::to_tokens$', s_to_tokens),
     (r' as quote::ToTokens>::to_token_stream$', s_to_token_stream),
 ]
